@@ -262,6 +262,24 @@ let () =
            (spec_qtrace (nat_of_int (int_of_string Sys.argv.(2))) md.md_root ops));
     exit 0
   end;
+  if Sys.argv.(1) = "qspec_mp11" then begin
+    (* backmp11's reading (Spec.sp_qrun_mp11: start() empties the pool; proved for backmp11): qspec_mp11 <policy> *)
+    (match parse (read_all stdin) with
+     | [] -> failwith "no input"
+     | m :: ops ->
+       let md = mdef m in
+       let ops = List.map op ops in
+       if not (coreb md.md_root) || not (qbracketedb false ops) || List.exists (fun p -> p <> None) md.md_parents
+       then print_string "NOTCORE\n"
+       else
+         List.iter (fun ((items, out), snap) ->
+             List.iter print_item items;
+             (match out with Some (h, rj) -> Printf.printf "RH %d %d\n" (b2i h) (b2i rj) | None -> ());
+             List.iter (fun (p, ids) -> Printf.printf "SNAP %s [%s]\n" (path p) (ints ids)) snap;
+             print_string "--\n")
+           (spec_qtrace_mp11 (nat_of_int (int_of_string Sys.argv.(2))) md.md_root ops));
+    exit 0
+  end;
   if Sys.argv.(1) = "ids" then begin
     (match parse (read_all stdin) with
      | m :: _ -> print_ids (Sys.argv.(2) = "mp11") [] (mdef m).md_root
